@@ -18,7 +18,7 @@ EXTRA = {
     'C11': 'the value stored for a moved simplex vertex is the objective at that row (the argument array equals the row element by element, from the loop summary); the bracketing triple stays ordered (middle point strictly between the outer ones) on every path, decided on a finite set of placements of the points; C11.g every scalar member minimize(simplex, func) uses (evaluation counter against NMAX, dimensions, fmin) is assigned by that call before its first use on every path (definite assignment over the members; configuration written only by the constructor is exempt)',
     'C09': 'C09.f the cached search reads the table next to the cached index only for arguments Locate keeps inside the domain (concrete table, call-site path conditions); search phases written with std::lower_bound/upper_bound are classified by the segment convention they implement; C09.g an argument-keyed early return (`x == member`) in a query member: no constructor may initialise the key to a finite literal (a fresh object would answer that argument from the placeholder)',
     'C05': 'C05.e Determinant keeps no state in the object, or every member that can change the entries (also through a mutable reference it hands out) resets it; the row operation of the elimination covers every column of the work array; the pivot may be read into a local only after the exchange',
-    'C01': 'data-dependent alternatives of the Steffen slope stay inside the monotonicity box on a sample table of secants (zeros, both signs, 1e-20..1e6); every returning path of Interpolate evaluates the segment polynomial (shortcuts only at exactly tested points); C01.h also evaluates C09.g (argument-keyed shortcut in front of the segment search)',
+    'C01': 'data-dependent alternatives of the Steffen slope stay inside the monotonicity box on a sample table of secants (zeros, both signs, 1e-20..1e6); every returning path of Interpolate evaluates the segment polynomial (shortcuts only at exactly tested points); C01.h also evaluates C09.g (argument-keyed shortcut in front of the segment search); C01.f flat copy of the grid read at i*S+j: the stride S must be the size of the list behind the array indexed by j (the constructor appends rows of that length); a stride taken from the other list is a violation, any other second storage is undecided',
     'C04': 'C04.e no floating-point value passes through the integer abs(); block (r,c) of the block constructor lands at the prefix sums of heights/widths (running offsets by closed form, 3x3 layout with distinct prefix sums); multi-path Norm on small concrete objects; size invariant of Vector (components.size()==dimension after every writer) and copy completeness of the copy constructors / operator= of Vector and Matrix (every member copied on every path)',
     'C06': 'C06.l a probability computed from the a>100 quadrature is clamped to [0,1] (min/max, if- or ternary form); C06.k the starting value of the Inv_GammaP iteration is non-decreasing in p on a (p,a) grid; GammaP+GammaQ=1 as an identity of terms on every pair of branches; no history-carrying function-local state in the gamma family (exact caches exempt)',
     'C07': 'PMF_Binomial inherits the form of Binomial_Coefficient (C06.e) and the CDFs the clamp of the quadrature branch (C06.l); the KDE is normalised by the exact integral of its own interpolant (Interpolation::Integrate), not by an adaptive quadrature of it; the tabulated KDE value is the kernel sum divided by bandwidth times the total weight',
